@@ -154,6 +154,21 @@ class Report:
                 else:
                     kept.append(o)
             new_viol = kept
+        # a summary obligation ("... /all", "... /none": no instance of a slip class anywhere) fails
+        # exactly when one of its instances does; when every failing instance was found undecided
+        # (or is a known finding), the summary has nothing definite left to report
+        kept = []
+        for o in new_viol:
+            if str(o.key).rsplit("/", 1)[-1] in ("all", "none"):
+                prefix = str(o.key).rsplit("/", 1)[0].split("/")[0]
+                fam = [x for x in self.obligations if x is not o and x.rule == o.rule and str(x.key).split("/")[0] == prefix and not x.ok]
+                definite = [x for x in fam if x in new_viol]
+                if fam and not definite:
+                    o.status = "undecided-summary"
+                    self.errors.append({"rule": o.rule, "site": o.site, "message": "cannot decide \"%s\": every failing instance of this class was left undecided or is a known finding" % o.instance[:140]})
+                    continue
+            kept.append(o)
+        new_viol = kept
         os.makedirs(os.path.join(EVIDENCE_DIR, "replay"), exist_ok=True)
         lines = []
         for o, k in known_hit:
